@@ -205,9 +205,16 @@ def build_module(spec):
         r = ir.Binop(v, "-", v, "r", ir.u32)
         b.add_instruction(r)
         b.add_instruction(ir.Return(r))
+    elif k == "binopc":  # binop of a parameter and a constant on the given side
+        f, b, (a,) = fn(spec["ty"], [spec["ty"]])
+        c = ir.Const(spec["value"], "c", _ty(spec["ty"]))
+        b.add_instruction(c)
+        r = ir.Binop(c, spec["op"], a, "r", _ty(spec["ty"])) if spec["side"] == "l" else ir.Binop(a, spec["op"], c, "r", _ty(spec["ty"]))
+        b.add_instruction(r)
+        b.add_instruction(ir.Return(r))
     elif k == "ptrchain":  # (p + c1) + c2 on pointers: the folder's chain rewrite
         f, b, (pp,) = fn("ptr", ["ptr"])
-        c1, c2 = ir.Const(4, "c1", ir.ptr), ir.Const(8, "c2", ir.ptr)
+        c1, c2 = ir.Const(spec.get("c1", 4), "c1", ir.ptr), ir.Const(spec.get("c2", 8), "c2", ir.ptr)
         q = ir.Binop(pp, "+", c1, "q", ir.ptr)
         r = ir.Binop(q, "+", c2, "r", ir.ptr)
         for i in (c1, c2, q, r, ir.Return(r)):
@@ -914,6 +921,12 @@ def corpus_jobs():
     jobs += [("x86_64", s, 2) for s in OPT_CRASH_SPECS]
     # ... or that leave a stale operand behind which the selection-graph builder then trips over
     jobs += [(key, {"k": "dupcall"}, 2) for key in TARGETS]
+    # pointer constants folded beyond the pointer width (the folder cannot wrap ptr) reach the encoders
+    jobs += [("arm", {"k": "ptrchain", "c1": 4294967295, "c2": 1}, 2), ("thumb", {"k": "ptrchain", "c1": 4294967295, "c2": 1}, 2),
+             ("x86_64", {"k": "ptrchain", "c1": 2 ** 64 - 1, "c2": 1}, 2)]
+    # fixed: rvc matched `c >> reg` with the reg-by-constant pattern (821633c)
+    jobs += [(key, {"k": "binopc", "op": op, "ty": "i32", "value": v, "side": sd}, 0)
+             for key in ("riscv", "rvc") for op in ("<<", ">>") for sd, v in (("l", -100), ("l", 5), ("r", -1), ("r", 3), ("r", 40))]
     return jobs
 
 
